@@ -226,12 +226,16 @@ Proof.
   exists asked, rest. auto.
 Qed.
 
-(* what save(path) leaves in the document: untouched (and then the result is an error) or exactly the
-   mutation of a successful save -- so (6) C19_resave_table / C19_resave_stream_partial apply *)
+(* what save(path) leaves in the document: untouched (and then the result is an error and the file
+   holds fewer bytes than are written before the mutation point) or exactly the mutation of a
+   successful save -- so (6) C19_resave_table / C19_resave_stream_partial apply.  For every capacity and
+   every cut of the output into calls: WHEN the buffered bytes reach the file is not observable
+   through this statement, which is why the correspondence compares the document state only for
+   runs where the file holds at least |pre| bytes (or the save succeeded, or the file was not created). *)
 Theorem C19_save_path_residue :
-  forall wa cap mode ids pre post st s r file st',
+  forall wa, wa_sound wa -> forall cap mode ids pre post st s r file st',
     save_path_with wa cap mode ids pre post st None s = (r, file, st') ->
-    (st' = st /\ r <> WOk) \/ st' = mutate mode ids st.
+    (st' = st /\ r <> WOk /\ (length file < length (concat pre))%nat) \/ st' = mutate mode ids st.
 Proof. exact save_path_with_residue. Qed.
 
 (* non-vacuity, and separation: the same device, the same output -- `into_inner()?` reports the
